@@ -293,6 +293,9 @@ def oracle_C09(sc, obs):
         if unstopped(t, stops) < deadline - eps:
             return f"signal {s} at {t:.0f} ms of which {unstopped(t, stops):.0f} ms running, deadline {deadline:.0f} ms"
     if deadline is not None and dur > deadline + eps:
+        if grace > 0 and term_like and unstopped(term_like[0][0], stops) > deadline + eps + 0.05 * deadline:
+            return (f"terminated late: first signal after {unstopped(term_like[0][0], stops):.0f} ms of running time, "
+                    f"the deadline (terminate-after x period) is {deadline:.0f} ms")
         if obs.get("result") != "timeout":
             return f"test ran past its deadline but result is {obs.get('result')}"
         if grace > 0 and not any(s == 15 for _, s in term_like):
@@ -497,6 +500,22 @@ def run_scenarios(rig, scs, par=4, timeout=40):
     return out
 
 
+HARD_MARKS = ("failed internally", "did not exit", "still alive")
+
+
+def hard_failure(why, o):
+    """failures that do not depend on a measured time count at the first observation (DESIGN §3): an
+    internal failure of nextest, nextest not exiting, a process surviving nextest. Survivors are
+    re-examined after half a second (a group killed with SIGKILL dies asynchronously)."""
+    if not why or not any(k in why for k in HARD_MARKS):
+        return False
+    if "still alive" in why:
+        time.sleep(0.5)
+        pids = ([o.get("pid")] if o.get("pid_alive_after") else []) + list(o.get("group_alive_after") or [])
+        return any(e2e.alive(p) for p in pids if p)
+    return True
+
+
 def check_family(chk, rig, scs, oracle, tag, retries=2):
     """correspondence + oracle over the scenarios; timing-dependent failures must reproduce with the
     time unit doubled (twice) before they count. Returns number of scenarios evaluated."""
@@ -521,6 +540,10 @@ def check_family(chk, rig, scs, oracle, tag, retries=2):
         diff = compare(sc, p, o) if o.get("started") else []
         if not why and not diff:
             continue
+        if hard_failure(why, o):
+            chk.violation("counterexample", "oracle:" + chk.prop,
+                          dict(clause=why, runs=[dict(scenario=sc, observation=o, model=p, oracle=why, diff=diff)]))
+            return False
         # reproduce with a doubled time unit
         history = [dict(scenario=sc, observation=o, model=p, oracle=why, diff=diff)]
         cur = sc
@@ -537,6 +560,8 @@ def check_family(chk, rig, scs, oracle, tag, retries=2):
                 break
         if not confirmed:
             chk.count("timing_flakes_not_reproduced")
+            print(f"note: property={chk.prop} a timing discrepancy did not reproduce with the time unit doubled "
+                  f"and was dismissed: {str(why or diff[0])[:160]}")
             continue
         hard = [h for h in history if h["oracle"]]
         if hard:
@@ -1020,6 +1045,10 @@ def check_life_family(chk, rig, scs, tag, retries=2, oracle=oracle_life):
         diff = compare_life(sc, p, o) if o.get("started") else []
         if not why and not diff:
             continue
+        if hard_failure(why, o):
+            chk.violation("counterexample", "oracle:" + chk.prop + ":unit-life",
+                          dict(clause=why, runs=[dict(scenario=sc, observation=o, model=p, oracle=why, diff=diff)]))
+            return False
         history = [dict(scenario=sc, observation=o, model=p, oracle=why, diff=diff)]
         cur = sc
         confirmed = True
@@ -1035,6 +1064,8 @@ def check_life_family(chk, rig, scs, tag, retries=2, oracle=oracle_life):
                 break
         if not confirmed:
             chk.count("timing_flakes_not_reproduced")
+            print(f"note: property={chk.prop} a timing discrepancy did not reproduce with the time unit doubled "
+                  f"and was dismissed: {str(why or diff[0])[:160]}")
             continue
         hard = [h for h in history if h["oracle"]]
         if hard:
